@@ -109,6 +109,10 @@ struct Cfg {
   bool temperature = false;
   bool trackers = false;
   long nbuffers = 0, ntasks = 0, queue = 0; // 0 = derive
+  // swarm knob: run the case once with capacities that can never be
+  // exhausted, then again with pools just twice as large as that run needed,
+  // so that slot indices wrap around and freed slots are reused at once
+  bool tight_pools = false;
   // fraction of launched packets that the harness redirects onto lattice
   // directions (through cell corners and along cell edges), so that the edge
   // and corner hand-over classes, which random directions never produce, are
@@ -170,6 +174,7 @@ struct Cfg {
     j["writer"] = writer;
     j["temperature"] = temperature;
     j["trackers"] = trackers;
+    j["tight_pools"] = tight_pools;
     j["nbuffers"] = (long long)nbuffers;
     j["ntasks"] = (long long)ntasks;
     j["queue"] = (long long)queue;
@@ -215,6 +220,7 @@ struct Cfg {
     c.writer = (int)j.at("writer").as_int(0);
     c.temperature = j.at("temperature").as_bool();
     c.trackers = j.at("trackers").as_bool();
+    c.tight_pools = j.at("tight_pools").as_bool();
     c.nbuffers = j.at("nbuffers").as_int(0);
     c.ntasks = j.at("ntasks").as_int(0);
     c.queue = j.at("queue").as_int(0);
@@ -503,6 +509,41 @@ public:
   // ionization driver: the locks and buffers of the continuous source blocks
   std::vector< ThreadLock > *source_locks = nullptr;
   std::vector< std::vector< PhotonBuffer > > *source_buffers = nullptr;
+  // the buffer and task pools (ionization driver), and the largest number of
+  // slots that were in use at the same time in any iteration
+  MemorySpace *pool_buffers = nullptr;
+  ThreadSafeVector< Task > *pool_tasks = nullptr;
+  long max_buffers_in_use = 0, max_tasks_in_use = 0;
+  long total_buffers_taken = 0;
+  // Guard for runs with reduced pools: the property's premise is that the
+  // pools are never exhausted. The occupancy counters are AtomicValues, so
+  // every change passes through on_atomic(); when a pool comes within
+  // `pool_margin` slots of its capacity the run is abandoned as inconclusive
+  // (before get_free_buffer() can return "no slot").
+  long pool_margin = 0; // 0 = guard off
+  bool pool_exhausted = false;
+  virtual void on_atomic(const void *addr, int op, long pre, long post) {
+    (void)pre;
+    if (pool_margin <= 0 || op < 0 || pool_exhausted)
+      return;
+    if ((pool_buffers &&
+         addr == (const void *)&pool_buffers->_memory_space._number_taken &&
+         post + pool_margin >= (long)pool_buffers->_memory_space._size) ||
+        (pool_tasks && addr == (const void *)&pool_tasks->_number_taken &&
+         post + pool_margin >= (long)pool_tasks->_size)) {
+      pool_exhausted = true;
+      request_abort();
+    }
+  }
+  long cap_buffers = 0; // configured capacity of the buffer pool
+  // is one of the pools (nearly) exhausted right now? (get_free_* spins then)
+  bool pools_full() const {
+    return (pool_buffers && cap_buffers > 0 &&
+            (long)pool_buffers->get_number_of_active_buffers() + 2 >=
+                cap_buffers) ||
+           (pool_tasks && pool_tasks->get_number_of_active_elements() + 2 >=
+                              pool_tasks->max_size());
+  }
 
   LedgerT() {
     for (int k = 0; k < TRAVELDIRECTION_NUMBER; ++k)
@@ -695,6 +736,8 @@ public:
         const void *const *br = (const void *const *)b;
         source_locks = (std::vector< ThreadLock > *)br[0];
         source_buffers = (std::vector< std::vector< PhotonBuffer > > *)br[1];
+        pool_buffers = (MemorySpace *)br[2];
+        pool_tasks = (ThreadSafeVector< Task > *)br[3];
       } else {
         source_locks = nullptr;
         source_buffers = nullptr;
@@ -1141,6 +1184,12 @@ public:
     std::vector< std::vector< PhotonBuffer > > *cont =
         (std::vector< std::vector< PhotonBuffer > > *)rec[6];
     ++stats["iterations"];
+    max_buffers_in_use = std::max(max_buffers_in_use,
+                                  (long)buffers->get_max_number_elements());
+    max_tasks_in_use =
+        std::max(max_tasks_in_use, (long)tasks->get_max_number_taken());
+    total_buffers_taken = std::max(total_buffers_taken,
+                                   (long)buffers->get_total_number_elements());
     if (launched != nphot)
       fail("launch-count", sfmt("iteration %d: %ld packets requested, %ld "
                                 "launched",
